@@ -102,7 +102,7 @@ func runC10(a hx.Args) string {
 	ms := make([]move.Move, n)
 	strs := make([]string, n)
 	for k := 0; k < n; k++ {
-		ms[k] = move.Move(a.U64(i + 2 + k))
+		ms[k] = hx.U2M(a.U64(i + 2 + k))
 		strs[k] = ms[k].String()
 	}
 	rootFEN := b.FEN()
@@ -440,7 +440,7 @@ func genC10(rng *hx.Rng, n int, tier string, emit func(hx.Input)) {
 		}
 		in := (&hx.Nums{}).BoardIn(c10Root(h.root)).Int(j, nm)
 		for _, m := range h.ms {
-			in.U(uint64(m))
+			in.U(hx.M2U(m))
 		}
 		tags := []string{h.kind}
 		switch {
